@@ -261,6 +261,11 @@ class SymSession(_Base):
     def allow_realize(self, flag=True):
         self.ctx.allow_realize = flag
 
+    def messages_may_format_numbers(self, flag=True):
+        """The code under test formats numbers into warning texts; those
+        strings are not observed (see SymFloat.__float__)."""
+        self.ctx.message_floats = flag
+
     def note(self, text):
         self.ctx.notes.append(text)
 
@@ -366,6 +371,9 @@ class ConcSession(_Base):
         self.observations.append((label, value))
 
     def allow_realize(self, flag=True):
+        pass
+
+    def messages_may_format_numbers(self, flag=True):
         pass
 
     def note(self, text):
